@@ -294,6 +294,41 @@ theorem lift_exists (sc : List FS.Ev) (hsc : FS.ScriptOK sc)
 /-- the transport delivers chunks only: no `Pending`, no FIN, no RESET -/
 def OnlyChunks (l : List FS.Ev) : Prop := ∀ ev ∈ l, ∃ b, ev = FS.Ev.chunk b
 
+/-- `ScriptOK` and `OnlyChunks` are decidable: look at every event -/
+def scriptOKB (sc : List FS.Ev) : Bool :=
+  sc.all fun ev => match ev with | .chunk b => !b.isEmpty | _ => true
+
+theorem scriptOK_iff (sc : List FS.Ev) : FS.ScriptOK sc ↔ scriptOKB sc = true := by
+  unfold FS.ScriptOK scriptOKB
+  rw [List.all_eq_true]
+  constructor
+  · intro h ev hev
+    cases ev with
+    | chunk b => simpa using h b hev
+    | _ => rfl
+  · intro h b hb
+    simpa using h _ hb
+
+instance (sc : List FS.Ev) : Decidable (FS.ScriptOK sc) := decidable_of_iff _ (scriptOK_iff sc).symm
+
+def onlyChunksB (sc : List FS.Ev) : Bool :=
+  sc.all fun ev => match ev with | .chunk _ => true | _ => false
+
+theorem onlyChunks_iff (sc : List FS.Ev) : OnlyChunks sc ↔ onlyChunksB sc = true := by
+  unfold OnlyChunks onlyChunksB
+  rw [List.all_eq_true]
+  constructor
+  · intro h ev hev
+    obtain ⟨b, rfl⟩ := h ev hev
+    rfl
+  · intro h ev hev
+    have := h ev hev
+    cases ev with
+    | chunk b => exact ⟨b, rfl⟩
+    | _ => simp at this
+
+instance (sc : List FS.Ev) : Decidable (OnlyChunks sc) := decidable_of_iff _ (onlyChunks_iff sc).symm
+
 theorem split_before {α : Type} {taken rest pre post : List α} {x : α}
     (h : taken ++ rest = pre ++ x :: post) (hx : x ∉ taken) :
     ∃ y, pre = taken ++ y ∧ rest = y ++ x :: post := by
